@@ -48,6 +48,9 @@ VALUE_KINDS = {
     "int": (-1, 2, 10),
     "str": ("B", "a", "b"),
     "float": (-0.5, 2.0, 10.5),
+    # a falsy extreme (0 as the least / the greatest value, the empty string as the least text)
+    "zero": (0, 3, -2),
+    "blank": ("", "a", "B"),
 }
 ATTR = "a"
 OTHER = "b"
